@@ -97,7 +97,7 @@ Definition spec_rename_inbox (st : store) (new : str) : store * res :=
        | Some ib =>
            let bs1 := add_missing (parents new) (boxes st) in
            (with_boxes st (map (fun b => if str_eqb (mb_name b) INBOX then MkBox INBOX [] (mb_next b) else b) bs1
-                           ++ [MkBox new (mb_msgs ib) 1]), ROk)
+                           ++ [MkBox new (mb_msgs ib) (mb_next ib)]), ROk)
        end.
 
 Definition spec_rename (st : store) (old new : str) : store * res :=
